@@ -56,7 +56,10 @@ type HostConf struct {
 	SkipHostEnv bool     `json:"skip_host_env"`
 	Conflict    string   `json:"conflict,omitempty"`    // cmd+reattach | secure+reattach | mux+reattach
 	ScriptLine  string   `json:"script_line,omitempty"` // plugin is a shell script printing this line instead of vplugin
-	CertPEM     string   `json:"cert_pem,omitempty"`    // static TLS: trust this server certificate
+	Group       string   `json:"group,omitempty"`       // UnixSocketConfig.Group
+	MinPort     uint     `json:"min_port,omitempty"`
+	MaxPort     uint     `json:"max_port,omitempty"`
+	CertPEM     string   `json:"cert_pem,omitempty"` // static TLS: trust this server certificate
 	KeyPEM      string   `json:"key_pem,omitempty"`
 }
 
@@ -96,6 +99,8 @@ type Result struct {
 	Version     int        `json:"version"`
 	Env         []string   `json:"env,omitempty"`
 	HelperErr   string     `json:"helper_err,omitempty"`
+	StdinIsHost bool       `json:"stdin_is_host"`
+	SocketDir   string     `json:"socket_dir,omitempty"`
 }
 
 const cookieKey, cookieVal = "VERIF_PLUGIN_COOKIE", "c0ffee"
@@ -377,9 +382,12 @@ func RunCell(c *Cell) (res *Result) {
 		case "env": // capture what a RunnerFunc is handed, without launching
 			cfg := mkConfig()
 			cfg.Cmd = nil
-			cfg.UnixSocketConfig = &plugin.UnixSocketConfig{TempDir: hostTmp}
+			cfg.UnixSocketConfig = &plugin.UnixSocketConfig{TempDir: hostTmp, Group: c.Host.Group}
+			cfg.MinPort, cfg.MaxPort = c.Host.MinPort, c.Host.MaxPort
 			cfg.RunnerFunc = func(l hclog.Logger, cmd *exec.Cmd, tmp string) (runner.Runner, error) {
 				res.Env = append([]string(nil), cmd.Env...)
+				res.StdinIsHost = cmd.Stdin == os.Stdin
+				res.SocketDir = tmp
 				return nil, errors.New("capture only")
 			}
 			cl := plugin.NewClient(cfg)
